@@ -26,7 +26,7 @@ PROPERTY = 'C14'
 RULE = ('open-self: Open.construct over AS/hold/identifier boundaries x every subset of the capability switches, '
         'decoded by Open.parse and by refcodec; open-ref: refcodec-encoded OPENs over capability subsets, orders and '
         'packagings (none / one per parameter / pairs / all in one) decoded by Open.parse; notif: all 256x256 '
-        'code/subcode pairs x data lengths; rr: AFI/SAFI/reserved boundaries x both type codes. Non-trivial = OPEN '
+        'code/subcode pairs x 5 data values, plus every Data length 0..4075 (messages of 21..4096 octets); rr: AFI/SAFI/reserved boundaries x both type codes. Non-trivial = OPEN '
         'with >= 2 capabilities, none at all, or AS > 65535 (other facets: every case); distinct by canonical JSON.')
 ASSUMPTIONS = [
     'capability values are compared through the representation Open.parse documents by example in its unit tests '
@@ -309,14 +309,18 @@ def run_notif(code, sub, data):
         return [('notif:construct-exception:' + exc_sig(e), repr(e))]
     ref = rc.notification(code, sub, data)
     if raw != ref:
-        out.append(('notif:wire', 'constructed %s, RFC encoding %s' % (raw.hex(), ref.hex())))
+        out.append(('notif:wire', ('constructed %s, RFC encoding %s' % (raw.hex(), ref.hex()))[:400]))
     try:
         got = Notification.parse(ref[19:])
     except Exception as e:
         return out + [('notif:parse-exception:' + exc_sig(e), repr(e))]
     if tuple(got) != (code, sub, data):
-        out.append(('notif:mismatch', 'expected %r got %r' % ((code, sub, data), got)))
+        out.append(('notif:mismatch', ('expected %r got %r' % ((code, sub, data), got))[:400]))
     return out
+
+
+def _filled(n, fill):
+    return b'\xff' * n if fill == 'ff' else bytes(i % 251 for i in range(n))
 
 
 def run_rr(afi, res, safi, mtype):
@@ -361,6 +365,8 @@ def shards(tier):
     out.append({'name': 'open-self-subsets', 'kind': 'open-self-subsets'})
     for i in range(4):
         out.append({'name': 'notif-%d' % i, 'kind': 'notif', 'codes': list(range(i, 256, 4))})
+    for i in range(2):
+        out.append({'name': 'notif-len-%d' % i, 'kind': 'notif-len', 'part': i})
     out.append({'name': 'rr', 'kind': 'rr', 'examples': 2000 if tier == 'quick' else 40000, 'hypothesis': True})
     return out
 
@@ -428,6 +434,17 @@ def run_shard(spec, seed, col, tier):
                     col.fail(sig, {'f': 'notif', 'code': code, 'sub': sub, 'data': data.hex()}, detail)
                 n += 1
         col.bulk(n, n, label='notif', sample={'f': 'notif', 'code': spec['codes'][0], 'sub': 255, 'data': datas[0].hex()})
+    elif kind == 'notif-len':
+        # every Data length a NOTIFICATION can carry (0..4075, i.e. messages of 21..4096 octets)
+        n = 0
+        for ln in range(spec['part'], 4076, 2):
+            for code, sub, fill in ((6, 2, 'count'), (2, 7, 'ff')):
+                case = {'f': 'notif', 'code': code, 'sub': sub, 'datalen': ln, 'fill': fill}
+                for sig, detail in run_notif(code, sub, _filled(ln, fill)):
+                    col.fail(sig, case, detail[:300])
+                n += 1
+        col.bulk(n, n, label='notif-every-data-length', sample={'f': 'notif', 'code': 6, 'sub': 2, 'datalen': 4075,
+                                                                'fill': 'count'})
     elif kind == 'rr':
         def body(case):
             res = run_rr(case['afi'], case['res'], case['safi'], case['type'])
@@ -449,7 +466,8 @@ def replay(case):
     if f == 'open-ref':
         return run_open_ref(case) or []
     if f == 'notif':
-        return run_notif(case['code'], case['sub'], bytes.fromhex(case['data']))
+        data = bytes.fromhex(case['data']) if 'data' in case else _filled(case['datalen'], case['fill'])
+        return run_notif(case['code'], case['sub'], data)
     if f == 'rr':
         return run_rr(case['afi'], case['res'], case['safi'], case['type'])
     if f == 'keepalive':
